@@ -55,3 +55,60 @@ Example exnet_nofail : forallb (fun e => label_nofail (snd e)) exnet_trace = tru
 Proof. vm_compute. reflexivity. Qed.
 Example exnet_decides : map (fun d => fst d) (trace_decides exnet_trace) = [(1, 10%N); (0, 10%N); (2, 10%N)].
 Proof. vm_compute. reflexivity. Qed.
+
+(* The documented NEGATIVE result of C02, recorded from the real core/qbft.Run (harness/qbft TestRefute): n = 4, member 2
+   Byzantine (leader of round 3), honest members 0 (leader of round 1), 1 (leader of round 2), 3.  Definition.Compare
+   answers CmpOk to member 1 for value 7 in round 1 and CmpFail for the same value 7 in round 2 -- not a function of
+   (process, value).  Through the compareFailureRound+1 shortcut of isJustifiedPrePrepare the Byzantine leader of round 3
+   gets its unjustified PRE-PREPARE(3, 8) accepted: member 0 decides 7 in round 1, member 1 decides 8 in round 3. *)
+Definition exref_cfg : cfg := mkcfg 4 100 (lead_rr 3 4) (fun i => negb (i =? 2)).
+Definition exref_trace : list (nat * label) := [
+  (0, LStart [NewTimer 1]);
+  (1, LStart [NewTimer 1]);
+  (3, LStart [NewTimer 1]);
+  (0, LInput 7%N [Bcast (mk PrePrepare 0 1 7 0 0) []]);
+  (1, LInput 8%N []);
+  (3, LInput 8%N []);
+  (0, LRecv (mkm (mk PrePrepare 0 1 7 0 0) []) CmpOk [Upon JustPrePrepare; StopTimer; NewTimer 1; Bcast (mk Prepare 0 1 7 0 0) []]);
+  (1, LRecv (mkm (mk PrePrepare 0 1 7 0 0) []) CmpOk [Upon JustPrePrepare; StopTimer; NewTimer 1; Bcast (mk Prepare 1 1 7 0 0) []]);
+  (3, LRecv (mkm (mk PrePrepare 0 1 7 0 0) []) CmpFail [Upon JustPrePrepare; StopTimer; NewTimer 1]);
+  (0, LRecv (mkm (mk Prepare 0 1 7 0 0) []) CmpOk []);
+  (0, LRecv (mkm (mk Prepare 1 1 7 0 0) []) CmpOk []);
+  (1, LRecv (mkm (mk Prepare 0 1 7 0 0) []) CmpOk []);
+  (1, LRecv (mkm (mk Prepare 1 1 7 0 0) []) CmpOk []);
+  (0, LRecv (mkm (mk Prepare 2 1 7 0 0) []) CmpOk [Upon QPrepares; Bcast (mk Commit 0 1 7 0 0) []]);
+  (1, LRecv (mkm (mk Prepare 2 1 7 0 0) []) CmpOk [Upon QPrepares; Bcast (mk Commit 1 1 7 0 0) []]);
+  (0, LRecv (mkm (mk Commit 0 1 7 0 0) []) CmpOk []);
+  (0, LRecv (mkm (mk Commit 1 1 7 0 0) []) CmpOk []);
+  (0, LRecv (mkm (mk Commit 2 1 7 0 0) []) CmpOk [Upon QCommits; StopTimer; Decide 7%N 1 [(mk Commit 0 1 7 0 0); (mk Commit 1 1 7 0 0); (mk Commit 2 1 7 0 0)]]);
+  (1, LRecv (mkm (mk Commit 0 1 7 0 0) []) CmpOk []);
+  (1, LRecv (mkm (mk Commit 1 1 7 0 0) []) CmpOk []);
+  (1, LTimeout [RoundChg 1 2 RoundTimeout; StopTimer; NewTimer 2; Bcast (mk RoundChange 1 2 0 1 7) [(mk Prepare 0 1 7 0 0); (mk Prepare 1 1 7 0 0); (mk Prepare 2 1 7 0 0)]]);
+  (3, LTimeout [RoundChg 1 2 RoundTimeout; StopTimer; NewTimer 2; Bcast (mk RoundChange 3 2 0 0 0) []]);
+  (1, LRecv (mkm (mk RoundChange 1 2 0 1 7) [(mk Prepare 0 1 7 0 0); (mk Prepare 1 1 7 0 0); (mk Prepare 2 1 7 0 0)]) CmpOk []);
+  (1, LRecv (mkm (mk RoundChange 3 2 0 0 0) []) CmpOk []);
+  (1, LRecv (mkm (mk RoundChange 2 2 0 0 0) []) CmpOk [Upon QRC; Bcast (mk PrePrepare 1 2 7 0 0) [(mk RoundChange 1 2 0 1 7); (mk RoundChange 2 2 0 0 0); (mk RoundChange 3 2 0 0 0); (mk Prepare 0 1 7 0 0); (mk Prepare 1 1 7 0 0); (mk Prepare 2 1 7 0 0)]]);
+  (1, LRecv (mkm (mk PrePrepare 1 2 7 0 0) [(mk RoundChange 1 2 0 1 7); (mk RoundChange 2 2 0 0 0); (mk RoundChange 3 2 0 0 0); (mk Prepare 0 1 7 0 0); (mk Prepare 1 1 7 0 0); (mk Prepare 2 1 7 0 0)]) CmpFail [Upon JustPrePrepare; StopTimer; NewTimer 2]);
+  (3, LRecv (mkm (mk PrePrepare 1 2 7 0 0) [(mk RoundChange 1 2 0 1 7); (mk RoundChange 2 2 0 0 0); (mk RoundChange 3 2 0 0 0); (mk Prepare 0 1 7 0 0); (mk Prepare 1 1 7 0 0); (mk Prepare 2 1 7 0 0)]) CmpFail [Upon JustPrePrepare; StopTimer; NewTimer 2]);
+  (1, LRecv (mkm (mk PrePrepare 2 3 8 0 0) []) CmpOk [Upon JustPrePrepare; RoundChg 2 3 JustPrePrepare; StopTimer; NewTimer 3; Bcast (mk Prepare 1 3 8 0 0) []]);
+  (3, LRecv (mkm (mk PrePrepare 2 3 8 0 0) []) CmpOk [Upon JustPrePrepare; RoundChg 2 3 JustPrePrepare; StopTimer; NewTimer 3; Bcast (mk Prepare 3 3 8 0 0) []]);
+  (1, LRecv (mkm (mk Prepare 1 3 8 0 0) []) CmpOk []);
+  (1, LRecv (mkm (mk Prepare 3 3 8 0 0) []) CmpOk []);
+  (3, LRecv (mkm (mk Prepare 1 3 8 0 0) []) CmpOk []);
+  (3, LRecv (mkm (mk Prepare 3 3 8 0 0) []) CmpOk []);
+  (1, LRecv (mkm (mk Prepare 2 3 8 0 0) []) CmpOk [Upon QPrepares; Bcast (mk Commit 1 3 8 0 0) []]);
+  (3, LRecv (mkm (mk Prepare 2 3 8 0 0) []) CmpOk [Upon QPrepares; Bcast (mk Commit 3 3 8 0 0) []]);
+  (1, LRecv (mkm (mk Commit 1 3 8 0 0) []) CmpOk []);
+  (1, LRecv (mkm (mk Commit 3 3 8 0 0) []) CmpOk []);
+  (1, LRecv (mkm (mk Commit 2 3 8 0 0) []) CmpOk [Upon QCommits; StopTimer; Decide 8%N 3 [(mk Commit 1 3 8 0 0); (mk Commit 2 3 8 0 0); (mk Commit 3 3 8 0 0)]]) ].
+
+Example exref_wf : Card.byz_count 4 (c_honest exref_cfg) = 1 /\ faulty 4 = 1.
+Proof. vm_compute. split; reflexivity. Qed.
+Example exref_accepted : nrun_ok exref_cfg exref_trace = true.
+Proof. vm_compute. reflexivity. Qed.
+Example exref_decides : trace_decides exref_trace = [(0, 7%N, 1); (1, 8%N, 3)].
+Proof. vm_compute. reflexivity. Qed.
+(* the only compare failures: member 3 on value 7 (twice) and member 1 on value 7, which it had accepted before *)
+Example exref_fails : flat_map (fun e => match snd e with LRecv m CmpFail _ => [(fst e, rnd (main m), val (main m))] | _ => [] end) exref_trace
+                      = [(3, 1, 7%N); (1, 2, 7%N); (3, 2, 7%N)].
+Proof. vm_compute. reflexivity. Qed.
